@@ -20,6 +20,15 @@ loop waited for a whole read block — finding F3.)  `WriteTo` is the mirror
 image over `ReadPeek`/`ReadCommit` with no shared access of its own and is
 exercised free-running only.
 
+Finding F9 (repaired in buffer.go, modelled here as repaired): a wait loop tests the other side's cursor in its
+condition and `isDone` in its body — two statements.  The consumer loops (`Read`, `ReadPeek`, `ReadWait`) load the
+producer cursor AGAIN once they have seen `done` (`r75r`, `p84r`: marks 131–133) and return end-of-stream only if the
+data is still missing: `done` is stored after the closer's last commit, so that load sees every byte committed before
+`Close`.  `waitForWriteSpace` tests `isDone` once more when it has found room (`s39`: mark 39), after its last look at
+the consumer cursor: a producer woken by `Close`, or finding room only after `Close`, returns end-of-stream instead of
+writing into a closed ring.  `tstepPreF9` / `runPreF9` is the program before the repair (it differs at four program
+counters), kept for the closed counterexamples of `Properties/C15.lean`.
+
 Ghost state: the source stream `cfg.src` (the producer's k-th written byte is
 `src k`) and `gotRev`, the bytes the consumer obtained (newest first).
 
@@ -76,6 +85,7 @@ inductive Pc where
   | s30 (n : Nat) | s31 (n : Nat) | s32 (n ppos : Nat) | s33 (n ppos : Nat) | s34 (n ppos : Nat)
   | s35 (n ppos : Nat) | s36 (n ppos : Nat) | s36w (n ppos : Nat) | s37 (n ppos : Nat)
   | s38 (n ppos cpos : Nat)
+  | s39 (n ppos : Nat)                        -- room found: `isDone` once more, after the last look at the consumer cursor (F9)
   -- Write(p), |p| = n
   | w40 (n : Nat) | w41c (n ppos j : Nat) | w42 (n ppos : Nat) | w43 (n : Nat) | w44 (n : Nat) | w45 (n : Nat)
   -- WriteCommit(n)
@@ -94,12 +104,14 @@ inductive Pc where
   | r64 (b2 : Bool) (cpos : Nat) (acc : List UInt8) | r65 (b2 : Bool) (cpos : Nat) (acc : List UInt8)
   | r66 (b2 : Bool) (cpos : Nat) (acc : List UInt8) | r67 (b2 : Bool) (cpos : Nat) (acc : List UInt8)
   | r73 (n cpos : Nat) | r74 (n cpos : Nat) | r75 (n cpos : Nat) | r76 (n cpos : Nat) | r77 (n cpos : Nat)
+  | r75r (n cpos : Nat)                       -- `done` seen: the producer cursor is loaded again before end-of-stream (F9)
   | r77w (n cpos : Nat) | r78 (n cpos : Nat) | r79 (n : Nat)
   -- ReadPeek(n) (w = false, marks 80–89) and ReadWait(n) (w = true, marks 90–99)
   | p80 (w : Bool) (n : Nat) | p81 (w : Bool) (n cpos : Nat) | p82 (w : Bool) (n cpos : Nat)
   | p83 (w : Bool) (n cpos : Nat) | p84 (w : Bool) (n cpos : Nat) | p85 (w : Bool) (n cpos : Nat)
   | p86 (w : Bool) (n cpos : Nat) | p86w (w : Bool) (n cpos : Nat) | p87 (w : Bool) (n cpos : Nat)
   | p88 (w : Bool) (n cpos ppos : Nat)
+  | p84r (w : Bool) (n cpos : Nat)            -- `done` seen: the producer cursor is loaded again before end-of-stream (F9)
   | p89c (w : Bool) (cpos m : Nat) (err : Err) (j : Nat) (acc : List UInt8)
   -- ReadCommit(n)
   | k100 (n : Nat) | k101 (n cpos : Nat) | k102 (n cpos : Nat) | k103 (n : Nat) | k104 (n : Nat) | k105 (n : Nat)
@@ -116,6 +128,7 @@ def Pc.yid : Pc → Option Nat
   | .l20 => some 20 | .l21 _ => some 21
   | .s30 _ => some 30 | .s31 _ => some 31 | .s32 _ _ => some 32 | .s33 _ _ => some 33 | .s34 _ _ => some 34
   | .s35 _ _ => some 35 | .s36 _ _ => some 36 | .s36w _ _ => none | .s37 _ _ => some 37 | .s38 _ _ _ => some 38
+  | .s39 _ _ => some 39
   | .w40 _ => some 40 | .w41c _ _ j => if j = 0 then some 41 else none | .w42 _ _ => some 42
   | .w43 _ => some 43 | .w44 _ => some 44 | .w45 _ => some 45
   | .c50 _ _ => some 50 | .c51 _ => some 51 | .c52 _ => some 52 | .c53 _ => some 53
@@ -127,11 +140,13 @@ def Pc.yid : Pc → Option Nat
   | .r66 b _ _ => some (if b then 71 else 66) | .r67 b _ _ => some (if b then 72 else 67)
   | .r73 _ _ => some 73 | .r74 _ _ => some 74 | .r75 _ _ => some 75 | .r76 _ _ => some 76 | .r77 _ _ => some 77
   | .r77w _ _ => none | .r78 _ _ => some 78 | .r79 _ => some 79
+  | .r75r _ _ => some 131
   | .p80 w _ => some (if w then 90 else 80) | .p81 w _ _ => some (if w then 91 else 81)
   | .p82 w _ _ => some (if w then 92 else 82) | .p83 w _ _ => some (if w then 93 else 83)
   | .p84 w _ _ => some (if w then 94 else 84) | .p85 w _ _ => some (if w then 95 else 85)
   | .p86 w _ _ => some (if w then 96 else 86) | .p86w _ _ _ => none
   | .p87 w _ _ => some (if w then 97 else 87) | .p88 w _ _ _ => some (if w then 98 else 88)
+  | .p84r w _ _ => some (if w then 133 else 132)
   | .p89c w _ _ _ j _ => if j = 0 then some (if w then 99 else 89) else none
   | .k100 _ => some 100 | .k101 _ _ => some 101 | .k102 _ _ => some 102 | .k103 _ => some 103
   | .k104 _ => some 104 | .k105 _ => some 105
@@ -327,7 +342,7 @@ def tstep (cfg : Cfg) (sh : Sh) (me : Tid) (th0 : Th) : Option (Sh × Th) :=
     let ppos := sh.pseq
     let gate := sh.gate
     if ppos + n > gate + cfg.size ∨ gate > ppos then some (sh, th.goto (.s32 n ppos))
-    else some (sh, wfsOk cfg th ppos n)
+    else some (sh, th.goto (.s39 n ppos))
   | .s32 n ppos => (sh.lock .pL me).map (·, th.goto (.s33 n ppos))
   | .s33 n ppos =>
     let cpos := sh.cseq
@@ -339,7 +354,8 @@ def tstep (cfg : Cfg) (sh : Sh) (me : Tid) (th0 : Th) : Option (Sh × Th) :=
   | .s37 n ppos =>
     let cpos := sh.cseq
     if ppos + n > cpos + cfg.size then some (sh, th.goto (.s34 n ppos)) else some (sh, th.goto (.s38 n ppos cpos))
-  | .s38 n ppos cpos => some (({ sh with gate := cpos }).unlock .pL, wfsOk cfg th ppos n)
+  | .s38 n ppos cpos => some (({ sh with gate := cpos }).unlock .pL, th.goto (.s39 n ppos))
+  | .s39 n ppos => if sh.done then some (sh, wfsErr th .eof) else some (sh, wfsOk cfg th ppos n)
   -- Write
   | .w40 n => if sh.done then some (sh, th.ret { err := .eof }) else some (sh, enterWfs cfg th n)
   | .w41c n ppos j =>
@@ -406,7 +422,8 @@ def tstep (cfg : Cfg) (sh : Sh) (me : Tid) (th0 : Th) : Option (Sh × Th) :=
   | .r73 n cpos => (sh.lock .cL me).map (·, th.goto (.r74 n cpos))
   | .r74 n cpos =>
     if cpos ≥ sh.pseq then some (sh, th.goto (.r75 n cpos)) else some (sh, th.goto (.r79 n))
-  | .r75 n cpos => if sh.done then some (sh, th.goto (.r76 n cpos)) else some (sh, th.goto (.r77 n cpos))
+  | .r75 n cpos => if sh.done then some (sh, th.goto (.r75r n cpos)) else some (sh, th.goto (.r77 n cpos))
+  | .r75r n cpos => if cpos ≥ sh.pseq then some (sh, th.goto (.r76 n cpos)) else some (sh, th.goto (.r79 n))
   | .r76 _ _ => some (sh.unlock .cL, th.ret { err := .eof })
   | .r77 n cpos => some (sh.park .cL, th.goto (.r77w n cpos))
   | .r77w n cpos => (sh.resume .cL me).map (·, th.goto (.r78 n cpos))
@@ -420,7 +437,10 @@ def tstep (cfg : Cfg) (sh : Sh) (me : Tid) (th0 : Th) : Option (Sh × Th) :=
   | .p83 w n cpos =>
     let ppos := sh.pseq
     if mustWait w n cpos ppos then some (sh, th.goto (.p84 w n cpos)) else some (sh, th.goto (.p88 w n cpos ppos))
-  | .p84 w n cpos => if sh.done then some (sh, th.goto (.p85 w n cpos)) else some (sh, th.goto (.p86 w n cpos))
+  | .p84 w n cpos => if sh.done then some (sh, th.goto (.p84r w n cpos)) else some (sh, th.goto (.p86 w n cpos))
+  | .p84r w n cpos =>
+    let ppos := sh.pseq
+    if mustWait w n cpos ppos then some (sh, th.goto (.p85 w n cpos)) else some (sh, th.goto (.p88 w n cpos ppos))
   | .p85 _ _ _ => some (sh.unlock .cL, th.ret { err := .eof })
   | .p86 w n cpos => some (sh.park .cL, th.goto (.p86w w n cpos))
   | .p86w w n cpos => (sh.resume .cL me).map (·, th.goto (.p87 w n cpos))
@@ -452,6 +472,23 @@ def tstep (cfg : Cfg) (sh : Sh) (me : Tid) (th0 : Th) : Option (Sh × Th) :=
     else some (sh, { th with pending := acc.reverse }.ret { n := m, off := cpos, data := acc.reverse })
 
 
+/-- The ring BEFORE the repair of finding F9: `waitForWriteSpace` returns as soon as it has found room (no `isDone` test
+after the wait loop) and the consumer wait loops return end-of-stream as soon as they see `done` (no second load of the
+producer cursor).  Everything else is `tstep`. -/
+def tstepPreF9 (cfg : Cfg) (sh : Sh) (me : Tid) (th0 : Th) : Option (Sh × Th) :=
+  if sh.crash then none else
+  let th : Th := { th0 with res := none }
+  match th0.pc with
+  | .s31 n =>
+    let ppos := sh.pseq
+    let gate := sh.gate
+    if ppos + n > gate + cfg.size ∨ gate > ppos then some (sh, th.goto (.s32 n ppos))
+    else some (sh, wfsOk cfg th ppos n)
+  | .s38 n ppos cpos => some (({ sh with gate := cpos }).unlock .pL, wfsOk cfg th ppos n)
+  | .r75 n cpos => if sh.done then some (sh, th.goto (.r76 n cpos)) else some (sh, th.goto (.r77 n cpos))
+  | .p84 w n cpos => if sh.done then some (sh, th.goto (.p85 w n cpos)) else some (sh, th.goto (.p86 w n cpos))
+  | _ => tstep cfg sh me th0
+
 /-! ### lock structure
 
 `lockFacts` is the model's own account of the lock structure of buffer.go: per ring
@@ -467,14 +504,14 @@ def lockFacts : List (Nat × List Nat) := [
   (1, [20, 1401, 21, 1400, 1100]),
   (2, [1200, 110, 1404, 1100, 1311, 1100, 112, 1401, 111, 1310, 1100, 1100]),
   (3, [1200, 120, 1404, 1100, 1306, 121, 1100, 1308, 1100, 1100]),
-  (4, [60, 1404, 1301, 1100, 61, 1401, 62, 1400, 63, 64, 1403, 65, 1000, 66, 1006, 67, 1002, 1100, 68, 69, 1403, 70, 1000, 71, 1006, 72, 1002, 1100, 73, 1001, 74, 1400, 1400, 75, 1404, 76, 1003, 1100, 77, 1005, 78, 79, 1003]),
+  (4, [60, 1404, 1301, 1100, 61, 1401, 62, 1400, 63, 64, 1403, 65, 1000, 66, 1006, 67, 1002, 1100, 68, 69, 1403, 70, 1000, 71, 1006, 72, 1002, 1100, 73, 1001, 74, 1400, 1400, 75, 1404, 131, 1400, 76, 1003, 1100, 77, 1005, 78, 79, 1003]),
   (5, [40, 1404, 1100, 1311, 1100, 41, 42, 1402, 43, 1001, 44, 1007, 45, 1003, 1100]),
-  (6, [1100, 1100, 80, 1401, 81, 1400, 82, 1001, 83, 1400, 1400, 84, 1404, 85, 1003, 1100, 86, 1005, 87, 88, 1003, 89, 1100, 1100, 1100]),
-  (7, [1100, 1100, 90, 1401, 91, 1400, 92, 1001, 93, 1400, 1400, 94, 1404, 95, 1003, 1100, 96, 1005, 97, 98, 1003, 99, 1100, 1100]),
+  (6, [1100, 1100, 80, 1401, 81, 1400, 82, 1001, 83, 1400, 1400, 84, 1404, 132, 1400, 85, 1003, 1100, 86, 1005, 87, 88, 1003, 89, 1100, 1100, 1100]),
+  (7, [1100, 1100, 90, 1401, 91, 1400, 92, 1001, 93, 1400, 1400, 94, 1404, 133, 1400, 95, 1003, 1100, 96, 1005, 97, 98, 1003, 99, 1100, 1100]),
   (8, [1100, 1100, 100, 1401, 101, 1400, 102, 1403, 103, 1000, 104, 1006, 105, 1002, 1100, 1100]),
   (9, [1311, 1100, 1100, 1100]),
   (10, [1311, 1100, 50, 1402, 51, 1001, 52, 1007, 53, 1003, 1100]),
-  (11, [1100, 30, 1404, 1100, 31, 1400, 32, 1000, 33, 1401, 1401, 34, 1404, 35, 1002, 1100, 36, 1004, 37, 38, 1002, 1100])]
+  (11, [1100, 30, 1404, 1100, 31, 1400, 32, 1000, 33, 1401, 1401, 34, 1404, 35, 1002, 1100, 36, 1004, 37, 38, 1002, 39, 1404, 1100, 1100])]
 
 /-- one program counter per mark, in the order of `lockFacts` (locals irrelevant for the lock operation performed) -/
 def markPcs : List Pc := [
@@ -482,15 +519,15 @@ def markPcs : List Pc := [
   .g110 0 [], .g112 0 [] 0, .g111 0 [] 0 0,
   .r60 0, .r61 0, .r62 0 0, .r63c false 0 0 0 [], .r64 false 0 [], .r65 false 0 [], .r66 false 0 [], .r67 false 0 [],
   .r63c true 0 0 0 [], .r64 true 0 [], .r65 true 0 [], .r66 true 0 [], .r67 true 0 [],
-  .r73 0 0, .r74 0 0, .r75 0 0, .r76 0 0, .r77 0 0, .r78 0 0, .r79 0,
+  .r73 0 0, .r74 0 0, .r75 0 0, .r75r 0 0, .r76 0 0, .r77 0 0, .r78 0 0, .r79 0,
   .w40 0, .w41c 0 0 0, .w42 0 0, .w43 0, .w44 0, .w45 0,
-  .p80 false 0, .p81 false 0 0, .p82 false 0 0, .p83 false 0 0, .p84 false 0 0, .p85 false 0 0, .p86 false 0 0,
+  .p80 false 0, .p81 false 0 0, .p82 false 0 0, .p83 false 0 0, .p84 false 0 0, .p84r false 0 0, .p85 false 0 0, .p86 false 0 0,
   .p87 false 0 0, .p88 false 0 0 0, .p89c false 0 0 .ok 0 [],
-  .p80 true 0, .p81 true 0 0, .p82 true 0 0, .p83 true 0 0, .p84 true 0 0, .p85 true 0 0, .p86 true 0 0,
+  .p80 true 0, .p81 true 0 0, .p82 true 0 0, .p83 true 0 0, .p84 true 0 0, .p84r true 0 0, .p85 true 0 0, .p86 true 0 0,
   .p87 true 0 0, .p88 true 0 0 0, .p89c true 0 0 .ok 0 [],
   .k100 0, .k101 0 0, .k102 0 0, .k103 0, .k104 0, .k105 0,
   .c50 0 0, .c51 0, .c52 0, .c53 0,
-  .s30 0, .s31 0, .s32 0 0, .s33 0 0, .s34 0 0, .s35 0 0, .s36 0 0, .s37 0 0, .s38 0 0 0]
+  .s30 0, .s31 0, .s32 0 0, .s33 0 0, .s34 0 0, .s35 0 0, .s36 0 0, .s37 0 0, .s38 0 0 0, .s39 0 0]
 
 /-- the lock operation `tstep` performs at `pc` (code as in `lockFacts`), observed on
 two probe states: both mutexes free / both held by the stepping thread -/
@@ -559,6 +596,19 @@ def step (cfg : Cfg) (s : St) (t : Tid) : Option St :=
 def run (cfg : Cfg) (s : St) : List Tid → St
   | [] => s
   | t :: ts => run cfg ((step cfg s t).getD s) ts
+
+/-- the same for the ring before the repair of F9 -/
+def stepPreF9 (cfg : Cfg) (s : St) (t : Tid) : Option St :=
+  match s.getTh t with
+  | none => none
+  | some th =>
+    match tstepPreF9 cfg s.sh t th with
+    | none => none
+    | some (sh, th') => some ({ s with sh := sh }.setTh t th')
+
+def runPreF9 (cfg : Cfg) (s : St) : List Tid → St
+  | [] => s
+  | t :: ts => runPreF9 cfg ((stepPreF9 cfg s t).getD s) ts
 
 def init (cfg : Cfg) (adv gate : Nat) : St :=
   { sh := { buf := Array.replicate cfg.size 0, pseq := adv, cseq := adv, gate := gate } }
